@@ -59,7 +59,14 @@ def run(ctx: Ctx) -> None:
     for h, lab in zip(seeds, labels):
         for part in range(nslice):
             jobs = [dict(s, label=lab) for k, s in enumerate(sc) if k % nslice == part]
-            if jobs:
+            if not jobs:
+                continue
+            if lab.endswith("_repeat"):
+                # the repetition runs IN THE SAME PROCESS as the first run with that hash seed, after it: whatever a process
+                # remembers of an earlier run of the scenario must not show in the next one
+                first = next(g for g in groups if g[0] == h and g[1][0]["label"] == labels[0] and g[1][0]["id"] == jobs[0]["id"])
+                first[1].extend(jobs)
+            else:
                 groups.append((h, jobs))
     ctx.log(f"{len(sc)} scenarios x {len(seeds)} processes ...")
     res = agree.run_workers(ctx, groups)
